@@ -11,7 +11,6 @@ package main
 import (
 	"bytes"
 	"fmt"
-	"os"
 	"reflect"
 	"strings"
 	"time"
@@ -163,19 +162,7 @@ func c07Inputs(rng *Rng, cfg *configuration.Configuration, tier string) ([]byte,
 }
 
 func runC07(r *Run) {
-	curPath := r.out.f.Name() + ".current"
-	cur, _ := os.Create(curPath)
-	defer cur.Close()
-	note := func(idx int, what string, input []byte) {
-		cur.Truncate(0)
-		cur.Seek(0, 0)
-		h := hx(input)
-		if len(h) > 400 {
-			h = h[:400] + fmt.Sprintf("…(%d bytes)", len(input))
-		}
-		fmt.Fprintf(cur, "%d\t%s\t%s\n", idx, what, h)
-		cur.Sync()
-	}
+	note := r.noteCurrent
 	r.each(func(idx int, rng *Rng) {
 		cfg := configuration.New()
 		rulesOn := rng.P(2, 3)
@@ -276,7 +263,7 @@ func runC07(r *Run) {
 		}
 		_ = reflect.TypeOf(tmpl)
 	})
-	cur.Truncate(0)
+	r.clearCurrent()
 }
 
 func min(a, b int) int {
